@@ -202,7 +202,8 @@ static void eb_dbl_projc_imp(eb_t r, const eb_t p) {
 #if EB_ADD == BASIC || !defined(STRIP)
 
 void eb_dbl_basic(eb_t r, const eb_t p) {
-	if (eb_is_infty(p)) {
+	if (eb_is_infty(p) || fb_is_zero(p->x)) {
+		/* Doubling the point of order two gives the identity. */
 		eb_set_infty(r);
 		return;
 	}
